@@ -2,7 +2,9 @@
 """Turns the log of a full `seedtest.sh` sweep into /verif/seeded/RESULTS.txt and records the
 verdict in each seed's meta.json. usage: seedresults.py <log> [label]"""
 import json, re, sys, os, subprocess
-log = open(sys.argv[1]).read().splitlines()
+log = []
+for f in sys.argv[1].split(","):
+    log += open(f).read().splitlines()
 label = sys.argv[2] if len(sys.argv) > 2 else "quick tier"
 verif = subprocess.run(["git", "-C", "/verif", "log", "--format=%h", "-1"], capture_output=True, text=True).stdout.strip()
 repo = subprocess.run(["git", "-C", "/repo", "log", "--format=%h", "-1"], capture_output=True, text=True).stdout.strip()
